@@ -42,6 +42,10 @@ CHECKS = {
             "Every callback log must be accepted by the life-cycle automaton: exact tokens and numbered lines per file in scan mode, (S+ T* L* C)* per pass in fix mode, nothing for disabled rules or undefined callbacks.", "3 C14"),
     "C15": ("deviation-bounded exhaustive fault enumeration: an exception at every callback invocation / parser invocation, an undecodable file at every position, process death at every intercepted I/O step of the write-back; invariants on every resulting state",
             "For every single fault point of 3-file runs: error reported naming the file, system-error exit, other files unaffected under continue-on-error, files original-or-fully-fixed, no temp files; every crash snapshot of the write-back holds an acceptable file.", "3 C15"),
+    "C08": ("bounded-exhaustive enumeration of documents x {default set, each fix-capable rule alone}; content fingerprint from the independent parser's token tree compared before/after fix",
+            "After fix, the nested block sequence, code content, inline structure, link targets and every character of text must be unchanged, up to the documented normalisations.", "3 C08"),
+    "C13": ("exhaustive enumeration of histories (all ordered pairs over a 50-document pool, triples over a core) within one process, differential against the file alone; explicit-state BFS over rule-instance state dumps",
+            "Per-file output and bytes within any history must equal those of the file processed alone; the reachable set of rule-instance states is explored breadth-first with a canonical dump as state key.", "3 C13"),
 }
 NOT_YET = {}
 
